@@ -61,9 +61,10 @@ PROPS["C14"] = {
     "level": "fault_enumeration",
     "quick_runs": 240, "quick_budget_s": 150, "thorough_budget_s": 600,
     "rule": "one run = one sampled world (store, provider personality, PKCE, refresh-token rotation, signing-key rotation) + one flow "
-            "{login, login with profile lookup, bearer request, refresh, plain-OAuth2 login, plain re-validation}; the flow's IdP-call sequence is "
-            "recorded fault-free, then re-executed once for EVERY position x EVERY applicable response kind (11 transport kinds, 31 Byzantine token "
-            "contents, 3 JWKS contents, 3 profile contents), each with a fresh browser, followed by a follow-up request and a final honest flow; "
+            "{login, login with profile lookup, bearer request, refresh, refresh with profile lookup, plain-OAuth2 login, plain re-validation} (profile flows: the "
+            "ID token lacks a drawn non-empty subset of email / email_verified / groups / preferred_username); the flow's IdP-call sequence is "
+            "recorded fault-free, then re-executed once for EVERY position x EVERY applicable response kind (11 transport kinds, 64 Byzantine token "
+            "responses incl. every subset of its five members omitted, 3 JWKS contents, 7 profile contents), each persistent and transient, each with a fresh browser, followed by a follow-up request and a final honest flow; "
             "non-trivial = the fault actually fired inside the flow; distinct = distinct event-log hash",
     "level_text": "complete position x response-kind sweep over the IdP-call sequence of each sampled flow; seeded choice of flow and world",
     "assumptions": COMMON_ASSUMPTIONS + ["claim values the extractor is documented to coerce (numbers / objects rendered as strings) are judged 'either': only no-crash and no-empty-identity are asserted for them"],
@@ -199,7 +200,7 @@ PROPS["C18"] = {
     "rule": "one run = one world (Secure, HttpOnly, SameSite '' / lax / strict / none, Path, 0-3 nested cookie domains incl. leading dot and with port, cookie name length 1-256 "
             "and __Secure- prefix, reverse-proxy mode, csrf-per-request, store, session size) x 1-3 request hosts (exact, sub-domain, deeper, sibling, unrelated, with port, upper case, "
             "suffix look-alike, optionally via X-Forwarded-Host) driven through start, callback, authenticated request, refresh to another size, a request on another host, sign-out "
-            "and five error paths; the M-attrs monitor (which also runs on every response of every other property's runs) checks every Set-Cookie of the proxy's cookie family; every "
+            "and five error paths, plus (cookie store, 35% of worlds) 10 logins whose session size lies within -48..+16 of the split threshold of that world (bisection); the M-attrs monitor (which also runs on every response of every other property's runs) checks every Set-Cookie of the proxy's cookie family; every "
             "deletion is applied to the browser jar and must remove the cookie it names; non-trivial = at least one deletion was judged; distinct = distinct configuration x hosts + event hash",
     "level_text": "monitor on every response of every run + seeded option/host sweep judged against a browser jar",
     "assumptions": COMMON_ASSUMPTIONS + ["hosts with a port, and suffix matches that are not on a label boundary, are asserted only where every reading of 'matching the request host' gives the same Domain"],
@@ -208,10 +209,10 @@ PROPS["C18"] = {
 PROPS["C15"] = {
     "level": "exploration",
     "quick_runs": 400, "quick_budget_s": 150, "thorough_budget_s": 600,
-    "rule": "one run = one world (0-15 skip-auth rules drawn from anchored / unanchored / method-qualified / negated / lower-case-method / legacy patterns, 0-14 trusted networks "
-            "incl. nested, overlapping, single hosts, IPv6, IPv4-mapped prefixes, preflight, reverse-proxy mode) + 150-299 unauthenticated requests over a path alphabet of 25 segments "
+    "rule": "one run = one world (0-15 skip-auth rules drawn from anchored / unanchored / method-qualified / negated / lower-case-method / legacy patterns, 0-22 trusted networks in a seeded configuration order "
+            "incl. nested ones sharing a base address, overlapping, single hosts, IPv6, IPv4-mapped prefixes, preflight, reverse-proxy mode) + 150-299 unauthenticated requests over a path alphabet of 25 segments "
             "(equal to, prefix of, suffix of, containing rule fragments) x 11 methods (incl. lower / mixed case, OPTIONS) x 15 queries that embed rule-like fragments, 30% of them repeated "
-            "with another query (twin), in reverse-proxy worlds with X-Forwarded-Uri as the effective URI + peer addresses = first / last / neighbours of every configured network, a "
+            "with another query (twin), in reverse-proxy worlds with X-Forwarded-Uri as the effective URI (half of them with a rule-like fragment before or after the query) + peer addresses = first / last / neighbours of every configured network, a "
             "strided /22 + /24 + /120 universe and 22 hand-picked boundary addresses, each written as IPv4, ::ffff:a.b.c.d and ::ffff:hhhh:hhhh (via the configured real-client-IP "
             "header in reverse-proxy mode); oracle: reached upstream / 202 <=> independent rule evaluation on (method, path) or preflight or net.IPNet.Contains(peer); "
             "non-trivial = at least one request was exempted; distinct = distinct rule/network set + event hash",
@@ -223,7 +224,7 @@ PROPS["C16"] = {
     "level": "exploration",
     "quick_runs": 800, "quick_budget_s": 150, "thorough_budget_s": 600,
     "rule": "TWIN RUNS: one run = one tape executed twice in two fresh bubbles with the same seeded crypto/rand stream: world (reverse-proxy on/off, configured real-client-IP header, "
-            "trusted networks, skip-auth routes, cookie domains, whitelist domains, redirect-url options, store) + 6-11 unauthenticated requests over 13 endpoint targets and 6 peer "
+            "trusted networks, skip-auth routes, cookie domains, whitelist domains, redirect-url options, store, plain HTTP or TLS front (req.TLS set), force-https) + 6-11 unauthenticated requests over 13 endpoint targets and 6 peer "
             "addresses + a real login + 3-6 authenticated requests + optional refresh + sign-out; in the second execution 60% of the requests additionally carry 1-4 forwarding headers "
             "(X-Forwarded-Host/Proto/Uri/For/Port/Prefix, X-Real-IP, X-ProxyUser-IP, X-Envoy-External-Address, CF-Connecting-IP, Forwarded, X-Original-URL; hosts on/off the whitelist and "
             "cookie domains, trusted/untrusted addresses, skip-auth and proxy-prefixed URIs; lower-cased names) drawn from a forked tape; reverse-proxy off: the per-request transcripts "
@@ -251,9 +252,9 @@ PROPS["C07"] = {
 PROPS["C17"] = {
     "level": "exploration",
     "quick_runs": 500, "quick_budget_s": 150, "thorough_budget_s": 600,
-    "rule": "one run = one world (1-10 upstream rules from: catch-all, nested prefixes /api/ and /api/v2/, sibling /apix/, exact path, base path, three rewrite rules with capture "
-            "groups incl. a longer overlapping pattern and a group swap, a static upstream; pass-host-header per rule; raw-path proxying on/off; four FakeUpstream hosts) + a real login "
-            "+ 40-79 authenticated requests: 13 prefixes x 0-3 segments from an alphabet with %2F, %2e, %20, +, ;, %-encoded and raw UTF-8, %3F, %25 x 12 queries x 9 methods x 0-5 "
+    "rule": "one run = one world (1-10 upstream rules from: catch-all, nested prefixes /api/ and /api/v2/, sibling /apix/, exact path, base path, four rewrite rules with capture "
+            "groups incl. a longer overlapping pattern, a group swap and a target with a query of its own, a static upstream; pass-host-header per rule; raw-path proxying on/off; four FakeUpstream hosts) + a real login "
+            "+ 40-79 authenticated requests: 24 prefixes (10 of them with an encoded slash or letter right at a prefix boundary) x 0-3 segments from an alphabet with %2F, %2e, %20, +, ;, %-encoded and raw UTF-8, %3F, %25 x 14 queries (two re-using the rule's parameter names) x 9 methods x 0-5 "
             "headers (repeated, lower-case, unusual names, empty values, hop-by-hop) x bodies 0 B - 1 MiB fixed or chunked with seeded chunk sizes; the upstream answers with a seeded "
             "status (14 codes), headers (Set-Cookie x2, Location, repeated fields, WWW-Authenticate) and body up to 70 kB, or is faulted (refuse / reset / hang, 8%); the real "
             "http.Transport writes to a net.Pipe and a real http.Server parses it; oracle: exactly the upstream named by an independent longest-prefix / longest-pattern model, "
@@ -318,7 +319,7 @@ PROPS["C20"] = {
 }
 
 # free-running passes under the race detector (see sim/freerun.go)
-for _p in ("C10", "C12"):
+for _p in ("C02", "C10", "C12"):
     PROPS[_p]["passes"] = [{"variant": ""}, {"race": True, "variant": "race", "quick_runs": 48, "thorough_runs": 600, "workers": 8}]
     PROPS[_p]["race_files"] = ()  # any access inside the repository (harness frames excluded)
     PROPS[_p]["rule"] += ("; plus a free-running pass of the -race binary: 2-16 clients in truly parallel goroutines (logins of different users and sizes, simultaneous staleness of all "
@@ -328,6 +329,7 @@ for _p in ("C10", "C12"):
 for _p, _n in {"C01": 2400, "C02": 240, "C03": 6000, "C04": 3200, "C05": 12000, "C06": 480, "C07": 6000, "C08": 8000, "C09": 6400, "C10": 8000, "C11": 16000,
                "C12": 12000, "C13": 1600, "C14": 800, "C15": 800, "C16": 8000, "C17": 2400, "C18": 16000, "C19": 3000}.items():
     PROPS[_p]["quick_runs"] = _n
+PROPS["C02"]["passes"] = [{"variant": ""}, {"race": True, "variant": "race", "quick_runs": 120, "thorough_runs": 1200, "workers": 8}]
 for _p in ("C10", "C12"):
     PROPS[_p]["passes"] = [{"variant": ""}, {"race": True, "variant": "race", "quick_runs": 160, "thorough_runs": 1600, "workers": 8}]
 PROPS["C20"]["passes"] = [{"variant": "modeA", "instrumented": True, "quick_runs": 6000}, {"race": True, "variant": "race", "quick_runs": 480, "thorough_runs": 4000, "workers": 8}]
